@@ -142,13 +142,14 @@ theorem scan_all_done (wf : Wf) (w : World) : ∀ (rest : List NodeId) (ns : NSM
 theorem nodeRunnable_starts {wf : Wf} {w : World} {ns : NSMap} {n : NodeId} (hns : (ns.get n).started = false)
     (hfix : ∀ p, p ∈ wf.preds n → Fix w (ns.get p)) (hdone : ∀ p, p ∈ wf.preds n → (ns.get p).isDone = true) :
     ((nodeRunnable wf w ns n).1.get n).blk ≠ none := by
+  obtain ⟨h2, h1⟩ := allDoneAll_of_fix (wf.preds n) hfix
   unfold nodeRunnable
   simp only
+  rw [h2]
   split
   · rw [upd_get_same, (updateStatus_frame w _).2.1, setN_get_same]; simp
-  · obtain ⟨h2, h1⟩ := allDone_of_fix (wf.preds n) hfix
-    have : (allDone w ns (wf.preds n)).1 = true := h1.mpr hdone
-    rw [if_pos this, setN_get_same, h2]
+  · have : (allDoneAll w ns (wf.preds n)).1 = true := h1.mpr hdone
+    rw [if_pos this, setN_get_same]
     simp only [hns, Bool.false_eq_true, if_false]
     split <;> simp
 
